@@ -40,7 +40,9 @@ package encoder
 
 //@ func toVarint
 //@ params data
+//@ results value offset err
 //@ requires len(data) >= 1
+//@ ensures[offset] err == nil ==> 1 <= offset && offset <= len(data)
 //@ property C18
 
 //@ func (*UndefinedType).UnmarshalBinary, (*Bool).UnmarshalBinary, (*Int).UnmarshalBinary, (*Uint).UnmarshalBinary, (*Char).UnmarshalBinary, (*Float).UnmarshalBinary, (*String).UnmarshalBinary, (*Bytes).UnmarshalBinary
